@@ -58,7 +58,7 @@ contract(Contract(
 
 contract(Contract(
     target=N + "render_line_break",
-    props=["C01", "C02", "C12"],
+    props=["C01", "C02", "C03", "C12"],
     params={"element": "ref:LineBreakEl"},
     self_cls="MarkdownNormalizer",
     setup=self_setup,
